@@ -282,6 +282,9 @@ func (lb *LoadBalancer) setupCircuitBreaker(cfg *config.Config) {
 
 func (lb *LoadBalancer) startHealthChecks() {
 	if lb.healthChecks.activeEnabled {
+		// The ticker goroutine is itself counted, so that the probes it starts never
+		// call healthCheckWg.Add while the counter is zero and Stop is already waiting.
+		lb.healthCheckWg.Add(1)
 		go lb.startActiveHealthChecks()
 		logging.L().Info().Dur("interval", lb.healthChecks.activeInterval).Msg("active health checks enabled")
 	} else {
@@ -297,6 +300,8 @@ func (lb *LoadBalancer) startHealthChecks() {
 
 // startActiveHealthChecks starts a goroutine that periodically checks the health of all backends
 func (lb *LoadBalancer) startActiveHealthChecks() {
+	defer lb.healthCheckWg.Done()
+
 	ticker := time.NewTicker(lb.healthChecks.activeInterval)
 	defer ticker.Stop()
 
@@ -310,7 +315,6 @@ func (lb *LoadBalancer) startActiveHealthChecks() {
 		select {
 		case <-lb.ctx.Done():
 			logging.L().Info().Msg("stopping active health checks")
-			lb.healthCheckWg.Wait()
 			return
 		case <-ticker.C:
 			lb.checkBackendsHealth()
